@@ -1,0 +1,253 @@
+//go:build verif
+
+// Contracts for the verification machinery in /verif (comment-only; no declarations).
+// C09: address book (in-memory): TTL classes, expiry heap, garbage collection, signed peer records.
+
+package pstoremem
+
+// ---------------------------------------------------------------------------
+// Layer 0: TTL classes and expiry test
+
+//@ func ttlIsConnected
+//@ prop C09
+//@ ensures result <==> ttl >= peerstore.ConnectedAddrTTL
+//@ modifies nothing
+
+//@ func (e *expiringAddr) IsConnected
+//@ prop C09
+//@ ensures result <==> e.TTL >= peerstore.ConnectedAddrTTL
+//@ modifies nothing
+
+//@ func (e *expiringAddr) ExpiredBy
+//@ prop C09
+//@ ensures result <==> e.Expiry <= t
+//@ modifies nothing
+
+// ---------------------------------------------------------------------------
+// Layer 1: the expiry heap. H = pa.expiringHeap.
+//   idxOK:   every heap slot holds a non-nil entry that knows its own slot (heapIndex)
+//   inHeap:  e is a member of the heap (given idxOK: exactly when some slot holds e)
+//   ordered: min-heap order on Expiry. The order itself is container/heap's business, so it is abstract:
+//            ghost.c09hvalid(pa) = "the array was a valid min-heap w.r.t. the Expiry values recorded in
+//            ghost.c09hexp(e) when container/heap last touched it"; ordered = valid and no member's Expiry
+//            has changed since; orderedExcept(x) = valid and only member x may have changed (what heap.Fix
+//            and heap.Remove need).
+//   rootMin: slot 0 holds a minimal Expiry (the consequence of the order that gc relies on)
+
+//@ ghost c09hvalid bool
+//@ ghost c09hexp int
+
+//@ pred inHeap(pa *peerAddrs, e *expiringAddr) =
+//@     0 <= e.heapIndex && e.heapIndex < len(pa.expiringHeap) && pa.expiringHeap[e.heapIndex] == e
+//@ pred idxOK(pa *peerAddrs) =
+//@     forall i int :: 0 <= i && i < len(pa.expiringHeap) ==> pa.expiringHeap[i] != nil && pa.expiringHeap[i].heapIndex == i
+//@ pred ordered(pa *peerAddrs) = ghost.c09hvalid(pa) &&
+//@     forall e *expiringAddr :: inHeap(pa, e) ==> e.Expiry == ghost.c09hexp(e)
+//@ pred orderedExcept(pa *peerAddrs, x *expiringAddr) = ghost.c09hvalid(pa) &&
+//@     forall e *expiringAddr :: inHeap(pa, e) && e != x ==> e.Expiry == ghost.c09hexp(e)
+//@ pred rootMin(pa *peerAddrs) =
+//@     forall e *expiringAddr :: inHeap(pa, e) ==> pa.expiringHeap[0].Expiry <= e.Expiry
+
+// heap.Interface methods of peerAddrs (what container/heap relies on)
+
+//@ func (pa *peerAddrs) Len
+//@ prop C09
+//@ ensures result == len(pa.expiringHeap)
+//@ modifies nothing
+
+//@ func (pa *peerAddrs) Less
+//@ prop C09
+//@ ensures result <==> pa.expiringHeap[i].Expiry < pa.expiringHeap[j].Expiry
+//@ modifies nothing
+
+//@ func (pa *peerAddrs) Swap
+//@ prop C09
+//@ requires 0 <= i && i < len(pa.expiringHeap) && 0 <= j && j < len(pa.expiringHeap)
+//@ requires pa.expiringHeap[i] != nil && pa.expiringHeap[j] != nil && (pa.expiringHeap[i] == pa.expiringHeap[j] ==> i == j)
+//@ ensures pa.expiringHeap == old(pa.expiringHeap)
+//@ ensures pa.expiringHeap[i] == old(pa.expiringHeap[j]) && pa.expiringHeap[j] == old(pa.expiringHeap[i])
+//@ ensures pa.expiringHeap[i].heapIndex == i && pa.expiringHeap[j].heapIndex == j
+//@ ensures forall k int :: 0 <= k && k < len(pa.expiringHeap) && k != i && k != j ==> pa.expiringHeap[k] == old(pa.expiringHeap[k])
+//@ ensures forall e *expiringAddr :: e != old(pa.expiringHeap[i]) && e != old(pa.expiringHeap[j]) ==> e.heapIndex == old(e.heapIndex)
+//@ modifies elems(pa.expiringHeap), expiringAddr.heapIndex
+
+//@ func (pa *peerAddrs) Push
+//@ prop C09
+//@ requires typeis(x, *expiringAddr)
+//@ ensures len(pa.expiringHeap) == len(old(pa.expiringHeap)) + 1
+//@ ensures pa.expiringHeap[len(pa.expiringHeap)-1] == x && expiringAddr(x).heapIndex == len(pa.expiringHeap) - 1
+//@ ensures forall k int :: 0 <= k && k < len(old(pa.expiringHeap)) ==> pa.expiringHeap[k] == old(pa.expiringHeap[k])
+//@ ensures forall e *expiringAddr :: e != x ==> e.heapIndex == old(e.heapIndex)
+//@ modifies pa.expiringHeap, expiringAddr.heapIndex
+
+//@ func (pa *peerAddrs) Pop
+//@ prop C09
+//@ requires len(pa.expiringHeap) > 0 && pa.expiringHeap[len(pa.expiringHeap)-1] != nil
+//@ ensures result == old(pa.expiringHeap[len(pa.expiringHeap)-1]) && expiringAddr(result).heapIndex == -1
+//@ ensures len(pa.expiringHeap) == len(old(pa.expiringHeap)) - 1
+//@ ensures forall k int :: 0 <= k && k < len(pa.expiringHeap) ==> pa.expiringHeap[k] == old(pa.expiringHeap[k])
+//@ ensures forall e *expiringAddr :: e != result ==> e.heapIndex == old(e.heapIndex)
+//@ modifies pa.expiringHeap, expiringAddr.heapIndex
+
+//@ func (pa *peerAddrs) NextExpiry
+//@ prop C09
+//@ ensures len(pa.expiringHeap) > 0 ==> result == pa.expiringHeap[0].Expiry
+//@ modifies nothing
+
+//@ func (pa *peerAddrs) NumUnconnectedAddrs
+//@ prop C09
+//@ ensures result == len(pa.expiringHeap)
+//@ modifies nothing
+
+// ---------------------------------------------------------------------------
+// Thin TRUSTED specification of container/heap, instantiated for *peerAddrs (A-HEAP). It is what the
+// package documents, provided Len/Less/Swap/Push/Pop above behave as contracted (verified separately):
+// the member set changes by exactly the pushed / removed element, every member knows its slot, the
+// removed element gets heapIndex -1 (through (*peerAddrs).Pop), min-heap order is (re-)established.
+
+//@ pred heapSameMembersExcept(pa *peerAddrs, x *expiringAddr) =
+//@     (forall e *expiringAddr :: e != x ==> (inHeap(pa, e) <==> old(inHeap(pa, e)))) &&
+//@     (forall e *expiringAddr :: e != x && !old(inHeap(pa, e)) ==> e.heapIndex == old(e.heapIndex))
+
+//@ extern container/heap.Push(h, x)
+//@ requires typeis(x, *expiringAddr) && idxOK(peerAddrs(h)) && ordered(peerAddrs(h)) && !inHeap(peerAddrs(h), expiringAddr(x))
+//@ ensures len(peerAddrs(h).expiringHeap) == len(old(peerAddrs(h).expiringHeap)) + 1
+//@ ensures fresh(peerAddrs(h).expiringHeap) || peerAddrs(h).expiringHeap[0:0] == old(peerAddrs(h).expiringHeap)[0:0]
+//@ ensures idxOK(peerAddrs(h)) && ordered(peerAddrs(h)) && rootMin(peerAddrs(h))
+//@ ensures inHeap(peerAddrs(h), expiringAddr(x)) && heapSameMembersExcept(peerAddrs(h), expiringAddr(x))
+//@ modifies peerAddrs(h).expiringHeap, elems(peerAddrs(h).expiringHeap), expiringAddr.heapIndex, ghost.c09hvalid(h), ghost.c09hexp(_)
+
+//@ extern container/heap.Pop(h) (r)
+//@ requires len(peerAddrs(h).expiringHeap) > 0 && idxOK(peerAddrs(h)) && ordered(peerAddrs(h))
+//@ ensures r == old(peerAddrs(h).expiringHeap[0]) && expiringAddr(r).heapIndex == -1 && old(inHeap(peerAddrs(h), expiringAddr(r)))
+//@ ensures peerAddrs(h).expiringHeap == old(peerAddrs(h).expiringHeap)[0:len(old(peerAddrs(h).expiringHeap))-1]
+//@ ensures idxOK(peerAddrs(h)) && ordered(peerAddrs(h)) && rootMin(peerAddrs(h))
+//@ ensures heapSameMembersExcept(peerAddrs(h), expiringAddr(r))
+//@ modifies peerAddrs(h).expiringHeap, elems(peerAddrs(h).expiringHeap), expiringAddr.heapIndex, ghost.c09hvalid(h), ghost.c09hexp(_)
+
+//@ extern container/heap.Remove(h, i) (r)
+//@ requires 0 <= i && i < len(peerAddrs(h).expiringHeap) && idxOK(peerAddrs(h)) && orderedExcept(peerAddrs(h), peerAddrs(h).expiringHeap[i])
+//@ ensures r == old(peerAddrs(h).expiringHeap[i]) && expiringAddr(r).heapIndex == -1 && old(inHeap(peerAddrs(h), expiringAddr(r)))
+//@ ensures peerAddrs(h).expiringHeap == old(peerAddrs(h).expiringHeap)[0:len(old(peerAddrs(h).expiringHeap))-1]
+//@ ensures idxOK(peerAddrs(h)) && ordered(peerAddrs(h)) && rootMin(peerAddrs(h))
+//@ ensures heapSameMembersExcept(peerAddrs(h), expiringAddr(r))
+//@ modifies peerAddrs(h).expiringHeap, elems(peerAddrs(h).expiringHeap), expiringAddr.heapIndex, ghost.c09hvalid(h), ghost.c09hexp(_)
+
+//@ extern container/heap.Fix(h, i)
+//@ requires 0 <= i && i < len(peerAddrs(h).expiringHeap) && idxOK(peerAddrs(h)) && orderedExcept(peerAddrs(h), peerAddrs(h).expiringHeap[i])
+//@ ensures idxOK(peerAddrs(h)) && ordered(peerAddrs(h)) && rootMin(peerAddrs(h))
+//@ ensures forall e *expiringAddr :: inHeap(peerAddrs(h), e) <==> old(inHeap(peerAddrs(h), e))
+//@ ensures forall e *expiringAddr :: !old(inHeap(peerAddrs(h), e)) ==> e.heapIndex == old(e.heapIndex)
+//@ modifies elems(peerAddrs(h).expiringHeap), expiringAddr.heapIndex, ghost.c09hvalid(h), ghost.c09hexp(_)
+
+// Update(a): a's TTL/Expiry have just been changed by the caller. Afterwards a is in the expiry heap exactly
+// when it is not held by a live connection (this is what makes gc collect it), everybody else keeps their place.
+
+//@ func (pa *peerAddrs) Update
+//@ prop C09
+//@ requires a != nil && idxOK(pa) && (a.heapIndex == -1 || inHeap(pa, a)) && orderedExcept(pa, a)
+//@ requires a.heapIndex == -1 ==> rootMin(pa)
+//@ ensures idxOK(pa)
+//@ ensures ordered(pa)
+//@ ensures rootMin(pa)
+//@ ensures a.heapIndex == -1 || inHeap(pa, a)
+//@ ensures inHeap(pa, a) <==> a.TTL < peerstore.ConnectedAddrTTL
+//@ ensures forall e *expiringAddr :: e != a && old(inHeap(pa, e)) ==> inHeap(pa, e)
+//@ ensures forall e *expiringAddr :: e != a && inHeap(pa, e) ==> old(inHeap(pa, e))
+//@ ensures forall e *expiringAddr :: e != a && !old(inHeap(pa, e)) ==> e.heapIndex == old(e.heapIndex)
+//@ ensures len(pa.expiringHeap) == len(old(pa.expiringHeap)) + ite(inHeap(pa, a), 1, 0) - ite(old(inHeap(pa, a)), 1, 0)
+//@ modifies pa.expiringHeap, elems(pa.expiringHeap), expiringAddr.heapIndex, ghost.c09hvalid(pa), ghost.c09hexp(_)
+
+// ---------------------------------------------------------------------------
+// Layer 2: the address map. pa.Addrs[q][k] reads as nil when peer q or key k is absent.
+//   keyOf(e)   the map key of an entry: the binary form of its multiaddr
+//   slotOK     every stored entry is non-nil and filed under its own peer and key
+//   entOK      every stored entry is in the expiry heap exactly when it is NOT held by a live connection
+//              (TTL < ConnectedAddrTTL); heapIndex == -1 otherwise
+//   outerOK    no peer is listed with an empty address map; distinct peers have distinct maps
+//   heapStored every heap member is a stored entry
+//   BK         the complete data-structure invariant of peerAddrs
+
+//@ pred keyOf(e *expiringAddr) = string(e.Addr.Bytes())
+//@ pred lookup(pa *peerAddrs, e *expiringAddr) = pa.Addrs[e.Peer][string(e.Addr.Bytes())]
+//@ pred slotOK(pa *peerAddrs) =
+//@     forall q peer.ID, k string :: (has(pa.Addrs, q) && has(pa.Addrs[q], k) ==> pa.Addrs[q][k] != nil) &&
+//@         (pa.Addrs[q][k] != nil ==> pa.Addrs[q][k].Peer == q && string(pa.Addrs[q][k].Addr.Bytes()) == k)
+//@ pred entOK(pa *peerAddrs) =
+//@     forall e *expiringAddr :: e != nil && pa.Addrs[e.Peer][string(e.Addr.Bytes())] == e ==>
+//@         (e.heapIndex == -1 || inHeap(pa, e)) && (inHeap(pa, e) <==> e.TTL < peerstore.ConnectedAddrTTL)
+//@ pred outerOK(pa *peerAddrs) = pa.Addrs != nil &&
+//@     (forall q peer.ID :: has(pa.Addrs, q) ==> pa.Addrs[q] != nil && pa.Addrs[q] != pa.Addrs && len(pa.Addrs[q]) > 0) &&
+//@     (forall q peer.ID, r peer.ID :: has(pa.Addrs, q) && has(pa.Addrs, r) && pa.Addrs[q] == pa.Addrs[r] ==> q == r)
+//@ pred heapStored(pa *peerAddrs) =
+//@     forall e *expiringAddr :: inHeap(pa, e) ==> pa.Addrs[e.Peer][string(e.Addr.Bytes())] == e
+//@ pred BK(pa *peerAddrs) = idxOK(pa) && ordered(pa) && rootMin(pa) && slotOK(pa) && entOK(pa) && outerOK(pa) && heapStored(pa)
+
+//@ func (pa *peerAddrs) FindAddr
+//@ prop C09
+//@ ensures result1 <==> has(pa.Addrs, p) && has(pa.Addrs[p], string(addr.Bytes()))
+//@ ensures result0 == pa.Addrs[p][string(addr.Bytes())]
+//@ modifies nothing
+
+// othersSame: every lookup except the one of entry x (peer x.Peer, key keyOf(x)) answers as before
+//@ pred othersSame(pa *peerAddrs, x *expiringAddr) =
+//@     forall q peer.ID, k string :: !(q == old(x.Peer) && k == old(string(x.Addr.Bytes()))) ==> pa.Addrs[q][k] == old(pa.Addrs[q][k])
+//@ pred fieldsSame() =
+//@     forall e *expiringAddr :: e.TTL == old(e.TTL) && e.Expiry == old(e.Expiry) && e.Peer == old(e.Peer) && e.Addr == old(e.Addr)
+
+//@ func (pa *peerAddrs) Insert
+//@ prop C09
+//@ requires a != nil && BK(pa) && pa.Addrs[a.Peer][string(a.Addr.Bytes())] == nil
+//@ requires forall i int :: 0 <= i && i < len(pa.expiringHeap) ==> pa.expiringHeap[i] != a
+//@ ensures idxOK(pa)
+//@ ensures ordered(pa)
+//@ ensures rootMin(pa)
+//@ ensures slotOK(pa)
+//@ ensures entOK(pa)
+//@ ensures outerOK(pa)
+//@ ensures heapStored(pa)
+//@ ensures pa.Addrs[a.Peer][string(a.Addr.Bytes())] == a
+//@ ensures othersSame(pa, a)
+//@ ensures len(pa.expiringHeap) == len(old(pa.expiringHeap)) + ite(a.TTL < peerstore.ConnectedAddrTTL, 1, 0)
+//@ ensures forall q peer.ID :: has(pa.Addrs, q) && q != a.Peer ==> pa.Addrs[q] == old(pa.Addrs[q])
+//@ ensures pa.Addrs[a.Peer] == old(pa.Addrs[a.Peer]) || fresh(pa.Addrs[a.Peer])
+//@ modifies contents(pa.Addrs), contents(pa.Addrs[a.Peer]), pa.expiringHeap, elems(pa.expiringHeap), expiringAddr.heapIndex, ghost.c09hvalid(pa), ghost.c09hexp(_)
+
+//@ func (pa *peerAddrs) Delete
+//@ prop C09
+//@ requires a != nil && BK(pa) && pa.Addrs[a.Peer][string(a.Addr.Bytes())] == a
+//@ ensures idxOK(pa)
+//@ ensures ordered(pa)
+//@ ensures rootMin(pa)
+//@ ensures slotOK(pa)
+//@ ensures entOK(pa)
+//@ ensures outerOK(pa)
+//@ ensures heapStored(pa)
+//@ ensures pa.Addrs[a.Peer][string(a.Addr.Bytes())] == nil
+//@ ensures othersSame(pa, a)
+//@ ensures len(pa.expiringHeap) == len(old(pa.expiringHeap)) - ite(old(a.TTL) < peerstore.ConnectedAddrTTL, 1, 0)
+//@ ensures forall q peer.ID :: has(pa.Addrs, q) ==> pa.Addrs[q] == old(pa.Addrs[q])
+//@ ensures forall q peer.ID :: has(pa.Addrs, q) ==> old(has(pa.Addrs, q))
+//@ modifies contents(pa.Addrs), contents(pa.Addrs[a.Peer]), pa.expiringHeap, elems(pa.expiringHeap), expiringAddr.heapIndex, ghost.c09hvalid(pa), ghost.c09hexp(_)
+
+//@ func (pa *peerAddrs) PopIfExpired
+//@ prop C09
+//@ requires BK(pa)
+//@ ensures idxOK(pa)
+//@ ensures ordered(pa)
+//@ ensures rootMin(pa)
+//@ ensures slotOK(pa)
+//@ ensures entOK(pa)
+//@ ensures outerOK(pa)
+//@ ensures heapStored(pa)
+//@ ensures result1 <==> old(len(pa.expiringHeap) > 0 && pa.expiringHeap[0].Expiry <= now)
+//@ ensures !result1 ==> result0 == nil && pa.expiringHeap == old(pa.expiringHeap) &&
+//@         (forall q peer.ID, k string :: pa.Addrs[q][k] == old(pa.Addrs[q][k])) &&
+//@         (forall q peer.ID :: has(pa.Addrs, q) <==> old(has(pa.Addrs, q)))
+//@ ensures result1 ==> result0 == old(pa.expiringHeap[0]) && result0.Expiry <= now && result0.TTL < peerstore.ConnectedAddrTTL
+//@ ensures result1 ==> old(pa.Addrs[result0.Peer][string(result0.Addr.Bytes())]) == result0
+//@ ensures result1 ==> pa.Addrs[result0.Peer][string(result0.Addr.Bytes())] == nil
+//@ ensures result1 ==> othersSame(pa, result0)
+//@ ensures result1 ==> len(pa.expiringHeap) == len(old(pa.expiringHeap)) - 1
+//@ ensures forall q peer.ID :: has(pa.Addrs, q) ==> old(has(pa.Addrs, q)) && pa.Addrs[q] == old(pa.Addrs[q])
+//@ modifies peerAddrs.Addrs, pa.expiringHeap, elems(pa.expiringHeap), expiringAddr.heapIndex, ghost.c09hvalid(pa), ghost.c09hexp(_)
